@@ -39,7 +39,7 @@ def check(ctx, rep):
     # ---- R-REFS-THREAD
     rep.count("worker threads", len(ctx.types.thread_targets), 4)
     for owner, target, node, initfi in ctx.types.thread_targets:
-        ps, it = ctx.paths(initfi, owner, depth=0)
+        ps, it = ctx.paths(initfi, owner if initfi.owner is not None else None, depth=1, inline=lambda callee, ev, path: callee.key in ctx.types.thread_factories)
         for p in ps:
             if p.status == "raise":
                 continue
